@@ -129,6 +129,17 @@ class _Subst(ast.NodeTransformer):
         return self.generic_visit(node)
 
 
+class _PositivePolarity(ast.NodeTransformer):
+    """`a if not t else b` -> `b if t else a` (a flipped condition is the same decision): every conditional of a
+    summary tests the POSITIVE form, so rules see one polarity whichever way the source is written."""
+
+    def visit_IfExp(self, node: ast.IfExp):
+        self.generic_visit(node)
+        while isinstance(node.test, ast.UnaryOp) and isinstance(node.test.op, ast.Not):
+            node = ast.IfExp(test=node.test.operand, body=node.orelse, orelse=node.body)
+        return node
+
+
 class Summarizer:
     """Function body -> single expression."""
 
@@ -139,7 +150,7 @@ class Summarizer:
     def summarize(self, fn: ast.FunctionDef, bind: Optional[Dict[str, ast.expr]] = None) -> ast.expr:
         key = (id(fn), tuple(sorted((k, u(v)) for k, v in (bind or {}).items())))
         if key not in self._cache:
-            self._cache[key] = self._run_top(fn.body, dict(bind or {}), {})
+            self._cache[key] = _PositivePolarity().visit(self._run_top(fn.body, dict(bind or {}), {}))
         return copy.deepcopy(self._cache[key])
 
     # internals ------------------------------------------------------------
@@ -441,6 +452,15 @@ class _Fold(ast.NodeTransformer):
     """Constant folding of literal container indexing: [a, b][0] -> a; and unrolling of a list
     comprehension over a literal index set: [f(i) for i in (0, 1)] -> [f(0), f(1)]."""
 
+    def visit_Call(self, node: ast.Call):
+        self.generic_visit(node)
+        # getattr(x, "name") with a literal name is the attribute read x.name
+        if isinstance(node.func, ast.Name) and node.func.id == "getattr" and len(node.args) == 2 and not node.keywords:
+            nm = node.args[1]
+            if isinstance(nm, ast.Constant) and isinstance(nm.value, str) and nm.value.isidentifier():
+                return ast.Attribute(value=node.args[0], attr=nm.value, ctx=ast.Load())
+        return node
+
     def visit_ListComp(self, node: ast.ListComp):
         self.generic_visit(node)
         if len(node.generators) == 1:
@@ -594,6 +614,29 @@ def strip_ifexp_paths(e: ast.expr) -> List[Tuple[List[Tuple[ast.expr, bool]], as
 
     rec(e, [])
     return out
+
+
+def _is_sentinel_leaf(l: ast.expr) -> bool:
+    return is_call_to(l, "__raise__") or (isinstance(l, ast.Constant) and l.value is None)
+
+
+def main_path(e: ast.expr):
+    """(guards, leaf) of the path that computes THE value of a summary: raise / None paths are set aside; of the
+    others the largest expression (the formula - guard paths return a parameter, a constant array, ...) is taken.
+    Independent of the order in which the source tests its guards."""
+    paths = strip_ifexp_paths(e)
+    cands = [(gs, l) for gs, l in paths if not _is_sentinel_leaf(l)] or paths
+    return max(cands, key=lambda p: sum(1 for _ in ast.walk(p[1])))
+
+
+def main_leaf(e: ast.expr) -> ast.expr:
+    return main_path(e)[1]
+
+
+def side_paths(e: ast.expr):
+    """The paths other than the main one."""
+    mp = main_path(e)
+    return [p for p in strip_ifexp_paths(e) if p[1] is not mp[1]]
 
 
 def walk_no_lambda(e: ast.AST):
